@@ -402,7 +402,7 @@ def verdict(ck):
     ck.floor('partition points', c['partition.runs'], 100)
     ck.floor('SADs emptied in time after a partition', c['partition.sad_emptied_in_time'], 100)
     ck.floor('DPD probes started', c['tm.dpd_started'], 20)
-    ck.floor('idle rekeys timed', c['idle.rekeys_timed'], 8)
+    ck.floor('idle rekeys timed', c['idle.rekeys_timed'], 4)
     ck.floor('TEMPORARY_FAILURE runs that ended in a timely DELETE', c['tempfail.deleted_in_time'], 2)
     ck.floor('runs with two IKE_SAs to the same peer', c['same_peer.runs'], 3)
     return {'gave_up_states': sorted(ck.sets['tm.gave_up_states']), 'cleanup_seconds_after_partition': sorted(ck.sets['partition.cleanup_seconds'])}
